@@ -479,7 +479,9 @@ int kalign_arr_to_msa(char** input_sequences, int* len, int numseq,struct msa** 
 
                 }
                 for(int j = 0; j < len[i];j++){
-                        msa->letter_freq[(int)input_sequences[i][j]]++;
+                        if((unsigned char)input_sequences[i][j] < 128){
+                                msa->letter_freq[(int)input_sequences[i][j]]++;
+                        }
                         seq->seq[j] = input_sequences[i][j];
                 }
                 seq->seq[len[i]] = 0;
